@@ -32,7 +32,7 @@ def ancestorsAux (m : Model) : Nat → Name → List Name
     | some f => f.args ++ f.args.flatMap (ancestorsAux m fuel)
 
 def ancestors (m : Model) (targets : List Name) : List Name :=
-  (targets.flatMap (ancestorsAux m (m.functions.length + 1))).eraseDups
+  (targets.flatMap (ancestorsAux m (m.functions.length + 2))).eraseDups
 
 structure VariableInfo where
   name : Name
